@@ -276,6 +276,22 @@ def cases(tier, shard, nshards):
                     steps.append(" ".join(str(vals[0]) if i == 0 else "%s %d" % (seq[i - 1], vals[i]) for i in range(n + 1)))
                     metas.append(list(seq))
             yield Case(steps, {"fam": "B", "held": {k: list(v) for k, v in held.items()}, "seqs": metas}, pre=pre, iso=True)
+    # ---- B (zeros): every spelling of precedence zero is the same level - negative zero (literal and computed), positive zero, the
+    # integer 0 and the default of a closure that was never configured tie with each other (the left operator's associativity decides)
+    zero_spellings = [("-0.0", 0), ("0.0 * (0 - 1)", 0), (None, 0), ("0.0", 0), ("0", 0), ("1", 1), ("-1", -1)]
+    for pa in itertools.product(zero_spellings, repeat=3):
+        if sum(1 for sp, _ in pa if sp in ("-0.0", "0.0 * (0 - 1)")) == 0 or not mine():
+            continue
+        pre = ['%s := \\a, b -> ["%s", a, b]' % (l, l) for l in labels]
+        pre += ["%s::precedence = %s" % (l, sp) for l, (sp, _) in zip(labels, pa) if sp is not None]
+        held = {l: (l, p) for l, (_, p) in zip(labels, pa)}
+        steps, metas = [], []
+        for n in range(1, 4):
+            for seq in itertools.product(labels, repeat=n):
+                vals = [10 + i for i in range(n + 1)]
+                steps.append(" ".join(str(vals[0]) if i == 0 else "%s %d" % (seq[i - 1], vals[i]) for i in range(n + 1)))
+                metas.append(list(seq))
+        yield Case(steps, {"fam": "B", "held": {k: list(v) for k, v in held.items()}, "seqs": metas, "zeros": [sp for sp, _ in pa]}, pre=pre, iso=True)
     # ---- C: numeric builtins
     maxc = 3 if tier == "quick" else 4
     operands = [2, 3, 1, 2, 3]
@@ -505,7 +521,7 @@ def judge_B(case, rs):
         ops = [(held[v][1], "L", held[v][0]) for v in seq]
         t = group(ops)
         want = tree_canon(t, [o[2] for o in ops], vals)
-        sig = "C03 B n=%d precs=%s" % (n, "/".join(str(o[0]) for o in ops))
+        sig = "C03 B n=%d precs=%s" % (n, "/".join(str(o[0]) for o in ops)) + (" zero-spellings" if m.get("zeros") else "")
         if r.get("st") != "ok":
             out.append(Violation(sig + " result=" + str(r.get("st")), "%s after %s -> %s %s" % (src, list(case.pre), r.get("st"), r.get("e")), want, r.get("st")))
         elif norm(r["v"]) != want:
